@@ -558,6 +558,11 @@ func cmdCheck(args []string) int {
 	if !*noEvidence && *only == "" {
 		writeEvidence(*property, *tier, seed, all, funcs, trusted, transp, nTriv, nDis, violations, wall, tsets, progs)
 	}
+	if exit == 0 && os.Getenv("STUNVC_KEEP_SMT") == "" && os.Getenv("STUNVC_SMTDIR") == "" {
+		// the query files of a clean run are of no further use (a run of C03 writes about a gigabyte); after a
+		// violation they stay: the replay files point at them
+		os.RemoveAll(smtDir)
+	}
 	return exit
 }
 
